@@ -146,6 +146,29 @@ func condVia(pred, b *ssa.BasicBlock) (ssa.Value, bool, bool) {
 			}
 		}
 	}
+	// a flag that is not a bool: `reason != ""`, `state == 2` with reason/state a phi of b set to constants on the way in
+	if bo, isBin := c.(*ssa.BinOp); isBin && (bo.Op == token.EQL || bo.Op == token.NEQ) && pred != nil {
+		x, y := bo.X, bo.Y
+		if _, xc := x.(*ssa.Const); xc {
+			x, y = y, x
+		}
+		phi, isPhi := x.(*ssa.Phi)
+		kc, isConst := y.(*ssa.Const)
+		if isPhi && isConst && phi.Block() == b && kc.Value != nil {
+			for i, p := range b.Preds {
+				if p != pred {
+					continue
+				}
+				if ec, ok := phi.Edges[i].(*ssa.Const); ok && ec.Value != nil {
+					eq := constant.Compare(ec.Value, token.EQL, kc.Value)
+					if bo.Op == token.NEQ {
+						eq = !eq
+					}
+					return ssa.NewConst(constant.MakeBool(eq), types.Typ[types.Bool]), neg, true
+				}
+			}
+		}
+	}
 	return c, neg, true
 }
 
@@ -163,8 +186,19 @@ func isFlagTest(b *ssa.BasicBlock) bool {
 		}
 		c = u.X
 	}
-	phi, isPhi := c.(*ssa.Phi)
-	return isPhi && phi.Block() == b
+	if phi, isPhi := c.(*ssa.Phi); isPhi && phi.Block() == b {
+		return true
+	}
+	if bo, isBin := c.(*ssa.BinOp); isBin && (bo.Op == token.EQL || bo.Op == token.NEQ) {
+		for _, pair := range [][2]ssa.Value{{bo.X, bo.Y}, {bo.Y, bo.X}} {
+			phi, isPhi := pair[0].(*ssa.Phi)
+			_, isConst := pair[1].(*ssa.Const)
+			if isPhi && isConst && phi.Block() == b {
+				return true
+			}
+		}
+	}
+	return false
 }
 
 // nilPhiVia: b ends in a nil test of one of its own phis (a result variable set on the ways in and tested right after
